@@ -91,7 +91,7 @@ def shard(seed, cases, tier):
 
     # the real-server samples run first: they fork, which is only safe while this process has no other threads
     real = Stats()
-    common.hyp_run(st.composite(realshm.cases)(), _real_body(real), real, seed + 17, 12 if tier == "thorough" else 2, shrink=False)
+    common.hyp_run(st.composite(realshm.cases)(), _real_body(real), real, seed + 17, 12 if tier == "thorough" else 2, shrink=False, skip_first=True)
     if real.violations:
         return real
     st_ = Stats()
